@@ -64,6 +64,7 @@ def run(F, R, tier):
     r17_2(ctx)
     r17_3(ctx)
     r17_4(ctx)
+    r17_6(ctx)
     r17_5(ctx)
     return ("A6 must-consume by path enumeration of stream effects in the 5 attribute-dispatch loops and the Break arms; layout of the "
             "attribute skipper, member pre-skip and with_pos save/restore; A5 interest table (event -> boolean function of interest flags) "
@@ -71,6 +72,28 @@ def run(F, R, tier):
             "replays every tree field / ElementValue payload from the field the tree builder stores it in; replay guards test only the "
             "presence of what they guard (R17.5); oracles: JVMS ch.4 "
             "(spec/c17.json, spec/jvms_tables.json), sibling code (reader vs accept vs tree builder)")
+
+
+def r17_6(ctx):
+    """R17.6: the byte reader has no shortcut: whatever the interest mask, the functions of duke::class_reader that drive a visitor leave
+    successfully only at their end (or in the arm of a declined item), so the unconditional events of a full read (deprecated/synthetic
+    flags, finish_*) are delivered for every accepted item (seed C17-6: `if interests == none() { skip_attributes; return finish }`)."""
+    R = ctx.R
+    R.rule("R17.6", "no shortcut exit in the visitor-driving functions of duke::class_reader: no explicit `return <non-error>`; what a full read "
+                    "delivers unconditionally for an accepted item does not depend on the interest mask")
+    n = 0
+    for b in ctx.duke.bodies:
+        if not (b["path"].startswith(CR) and b.get("dk") in ("Fn", "AssocFn") and isinstance(b.get("body"), dict)):
+            continue
+        if not any("isitor" in (t or "") for t in (b.get("inputs") or [])) and not any(
+                x.get("k") in ("call", "mcall") and ((x.get("callee") or {}).get("trait") or "").startswith("duke::visitor::") for x in H.walk(b["body"])):
+            continue
+        early = H.success_returns(b["body"])
+        n += 1
+        R.inst("R17.6", "no-shortcut:%s" % b.get("name"), not early, sp=(early[0].get("sp") if early else b["sp"]),
+               expect="the function returns successfully only through its final expression", got=[H.render(x)[:120] for x in early],
+               detail="an early success exit skips the events a full read delivers after that point (they are then missing for some interest masks)")
+    R.floor("R17.6", 8)
 
 
 class Ctx:
@@ -2736,6 +2759,29 @@ class Guards:
         self.node_of.setdefault(atom, node)
         return atom
 
+    def optional_collection(self, p):
+        """the tree field at place `p` (`Adt.field`) is an Option<collection>: present-but-empty is a value of its own (an attribute
+        with zero entries), so only `Some`/`None` tests are presence tests of it"""
+        if not p or "." not in p or p.startswith("<"):
+            return False
+        adt_s, fld = p.split(".", 1)
+        adt_s = adt_s.split("::")[0]
+        for k, a in self.ctx.duke.adts.items():
+            if k.startswith("duke::tree::") and k.rsplit("::", 1)[-1] == adt_s:
+                for v in a.get("variants", []):
+                    for f in v.get("fields", []):
+                        if f["name"] == fld:
+                            t = f["ty"] if isinstance(f["ty"], str) else json.dumps(f["ty"])
+                            return "Option" in t[:40] and ("Vec" in t or "IndexMap" in t or "IndexSet" in t)
+        return False
+
+    def emptiness(self, e, node):
+        """`e.is_empty()` / `e.len() == 0`: a presence test, unless e is (the unwrapped default of) an optional collection"""
+        p = self.pl(e)
+        if p and self.optional_collection(p):
+            return self.remember(("optional-emptiness", p, id(node)), node)
+        return f_not(self.presence(e, node))
+
     def value_atom(self, e):
         ps = self.places_of(e) if e is not None else set()
         if ps:
@@ -2782,12 +2828,14 @@ class Guards:
                     if val(1) == val(10 ** 12):
                         if val(0) == val(1):
                             return T_ if val(0) else F_
-                        pa = self.presence(b0["recv"], e)
+                        pa = f_not(self.emptiness(b0["recv"], e))
                         return pa if val(1) else f_not(pa)
                     return self.value_atom(e)
         if k == "letexpr":
             return self.pat_cond(e["pat"], e["init"], depth + 1)
-        if k == "mcall" and e["name"] in ("is_empty", "is_none"):
+        if k == "mcall" and e["name"] == "is_empty":
+            return self.emptiness(e["recv"], e)
+        if k == "mcall" and e["name"] == "is_none":
             return f_not(self.presence(e["recv"], e))
         if k == "mcall" and e["name"] == "is_some":
             return self.presence(e["recv"], e)
@@ -3116,6 +3164,15 @@ def verdict_guard(R, G, key, n, f, ats, D):
                got="condition `%s` reads %s" % (H.render(node)[:160] if "k" in node and node.get("k") not in ("ptuplestruct", "pstruct", "pexpr") else "pattern", ",".join(tested)),
                detail="whether this part of the tree is replayed depends on a different part of the tree: a node that has the one but "
                       "not the other is replayed differently from how its bytes are read")
+        return
+    oe = [a for a in undecided if a[0] == "optional-emptiness" and depends(a)]
+    if oe:
+        node = G.node_of.get(oe[0]) or n
+        R.inst("R17.5", "%s=tests-emptiness-of-optional(%s)" % (key, oe[0][1]), False, sp=node.get("sp") or n["sp"],
+               expect="replayed whenever %s is Some(..), also Some(empty): a read delivers the event for an attribute with zero entries" % oe[0][1],
+               got="condition `%s`" % H.render(node)[:120],
+               detail="present-but-empty and absent are different facts of the class (e.g. a sealed class permitting nothing); replaying "
+                      "into the tree builder must reproduce Some(vec![])")
         return
     und = [a for a in undecided if depends(a)]
     if und:
